@@ -168,9 +168,17 @@ func VP_C16_FaultLeavesWorkAreaEmptyAndStoreValid() {
 	if vpChoose("tmp-exists", 2) == 1 {
 		os.Mkdir(filepath.Join(base, ".tmp"), 0700)
 	}
-	op := vpChoose("op", 4)
+	op := vpChoose("op", 5)
 	newpw := vpStr("pw", 2)
-	vpFaultArm()
+	// the failure is either one injected failing call, or (natively reproducible) a work area
+	// that cannot be used because .tmp is a regular file
+	inject := vpChoose("obstruction", 2) == 0
+	if inject {
+		vpFaultArm()
+	} else {
+		os.RemoveAll(filepath.Join(base, ".tmp"))
+		os.WriteFile(filepath.Join(base, ".tmp"), []byte("x"), 0600)
+	}
 	switch op {
 	case 0:
 		d.AddUser("w", newpw, vpChoose("newadmin", 2) == 1)
@@ -180,6 +188,16 @@ func VP_C16_FaultLeavesWorkAreaEmptyAndStoreValid() {
 		d.SetAdmin("u", true)
 	case 3:
 		d.RemoveUser("u")
+	case 4: // the only administrator changes its password
+		d.UpdateUser("root", newpw)
+	}
+	if !inject {
+		vpAssert("store-still-valid-with-an-unusable-work-area", d.Check() == nil)
+		_, e1 := os.Stat(filepath.Join(base, "u.user"))
+		_, e2 := os.Stat(filepath.Join(base, "u.admin"))
+		vpAssert("never-two-files-for-one-user", e1 != nil || e2 != nil)
+		vpCover("end")
+		return
 	}
 	vpFaultDisarm()
 	call := vpFaultWhere()
@@ -189,7 +207,7 @@ func VP_C16_FaultLeavesWorkAreaEmptyAndStoreValid() {
 			break
 		}
 	}
-	names := []string{"add", "update", "setadmin", "remove"}
+	names := []string{"add", "update", "setadmin", "remove", "update-of-the-only-admin"}
 	ents, terr := os.ReadDir(filepath.Join(base, ".tmp"))
 	vpAssert("model: work-area-empty-after-"+names[op]+" (failing call: "+call+")", vpImp(call != "unlink", terr != nil || len(ents) == 0))
 	vpAssert("model: store-still-valid-after-"+names[op]+" (failing call: "+call+")", d.Check() == nil)
